@@ -176,7 +176,15 @@ func (dw *DiskWriter) HandleChange(kind ChangeKind, p string, fi os.FileInfo, er
 		// hard link: also for devices and fifos, which the walk announces as
 		// links to the first member of their inode group
 		linkSrc := filepath.Join(dw.dest, statCopy.Linkname)
-		if srcFi, err := os.Lstat(linkSrc); rename && err == nil && os.SameFile(srcFi, oldFi) {
+		srcFi, err := os.Lstat(linkSrc)
+		if err == nil && srcFi.Mode()&os.ModeSymlink != 0 {
+			// the link source was announced but not written by this
+			// transfer (merge mode with a filter or a metadata-only
+			// selector): what sits at its name is an older symlink, and the
+			// metadata of the new link would be applied through it
+			return errors.Errorf("invalid link %s to symlink %s", p, statCopy.Linkname)
+		}
+		if rename && err == nil && os.SameFile(srcFi, oldFi) {
 			// destPath already is a name of the wanted inode. rename(2) of
 			// one name of an inode over another one is a no-op that would
 			// leave the temporary name behind: update it in place.
